@@ -87,7 +87,7 @@ class Gen:
 
     def number(self):
         return self.r.choice(["0", "1", "2", "3", "7", "10", "0.5", "1.50", "0.1", "0.2", "100", "63", "64", "65", "9223372036854775807",
-                              "79228162514264337593543950335", "0.0000000000000000000000000001", "1.10", "12345678901234567890"])
+                              "79228162514264337593543950335", "0.0000000000000000000000000001", "1.10", "12345678901234567890", "0.0000000000000000000000000001.", "1.0000000000000000000000000000.5"])
 
     def atom(self, want):
         r = self.r
